@@ -70,7 +70,8 @@ class C08(object):
             return dit.Distribution([gen.to_py(o, other) for o in outs], pmf), ident
         if T == 'row-order':
             order = list(rs.permutation(len(outs)))
-            return dit.Distribution([gen.to_py(outs[i], klass) for i in order], [pmf[i] for i in order]), ident
+            kw = [{}, {'sort': False}, {'sort': False, 'sparse': False}, {'sparse': False}][int(rs.randint(4))]
+            return dit.Distribution([gen.to_py(outs[i], klass) for i in order], [pmf[i] for i in order], **kw), ident
         if T == 'dense':
             d2 = d.copy()
             d2.make_dense()
